@@ -16,8 +16,12 @@ func H_C08() {
 		vAssert(s.Open(), "Open on a live snapshot succeeds")
 	}
 	useIter := vChoice("useiter", 0, 2) == 1
+	gcThread := vBound("gcthread") == 1
 	var wg sync.WaitGroup
 	wg.Add(2)
+	if gcThread {
+		wg.Add(1)
+	}
 	opened := false
 	vConcurrent(true)
 	go func() {
@@ -43,6 +47,15 @@ func H_C08() {
 		vThreadDone("B")
 		wg.Done()
 	}()
+	if gcThread {
+		// a collection pass requested through the public API races with the closes
+		go func() {
+			vThread("G")
+			db.GC()
+			vThreadDone("G")
+			wg.Done()
+		}()
+	}
 	wg.Wait()
 	vConcurrent(false)
 	if extra {
@@ -61,6 +74,7 @@ func H_C08() {
 	s2, _ := db.NewSnapshot()
 	s2.Close()
 	vQuiesce()
+	vAssert(db.GetLastGCSn() == s2.sn, "the final Close of a later snapshot triggers collection of everything retired so far")
 	db.GC()
 	vQuiesce()
 	vAssert(db.GetLastGCSn() == s2.sn, "collector progresses past later snapshots (snapshot retired exactly once)")
